@@ -88,7 +88,8 @@ def attribute_soft(doc: str, o: dict) -> str | None:
         try:
             a = fmt(doc, o)
             b2 = fmt(a, o)
-            if _unquote(a) == _unquote(b2) and (_idem(doc.replace("'", ""), o) or _idem(doc.replace('"', ""), o)):
+            b2 = undo_quote_breaks(a, b2)
+            if _unquote(a) == _unquote(b2) and (_idem_mod_breaks(doc.replace("'", ""), o) or _idem_mod_breaks(doc.replace('"', ""), o)):
                 return "C02-smartquotes-overlapping-pairs"
         except Exception:
             pass
@@ -107,6 +108,15 @@ def attribute_soft(doc: str, o: dict) -> str | None:
             return "C09-ellipses-after-introduced-escape"
         return "C01-unescaped-line-head-hazards"
     return None
+
+
+def _idem_mod_breaks(doc: str, o: dict) -> bool:
+    try:
+        a = fmt(doc, o)
+        b = fmt(a, o)
+        return undo_quote_breaks(a, b) == a
+    except Exception:
+        return False
 
 
 def _idem(doc: str, o: dict) -> bool:
@@ -141,6 +151,14 @@ def quote_break_only(a: str, b: str) -> bool:
     return True
 
 
+def undo_quote_breaks(a: str, b: str) -> str:
+    """b with the lines that only re-spell a bare quote prefix of a ('>' -> '> ') put back as in a"""
+    la, lb = a.split("\n"), b.split("\n")
+    if len(la) != len(lb):
+        return b
+    return "\n".join(x if (x != y and re.fullmatch(r"[ >]*>", x) and y.rstrip(" ") == x) else y for x, y in zip(la, lb))
+
+
 def oracle(ctx: Ctx, docs, label: str, k: int) -> None:
     for i, doc in enumerate(docs):
         for o in option_sets(ctx, k):
@@ -155,6 +173,11 @@ def oracle(ctx: Ctx, docs, label: str, k: int) -> None:
             if a != b and quote_break_only(a, b):
                 ctx.fail("IDEMPOTENT: item break in a quote re-spelled", {"doc": doc, "opts": {x: str(y) for x, y in o.items()}}, None,
                          known="C02-quote-item-break-spelling")
+            elif a != b and _unquote(undo_quote_breaks(a, b)) == _unquote(a) and undo_quote_breaks(a, b) != a and \
+                    attribute(doc, o, hard=(label == "generated-hazards")) == "C02-smartquotes-overlapping-pairs":
+                # both known effects in one document: the quote-prefix spelling and a nested quote pair
+                ctx.fail("IDEMPOTENT: item break in a quote re-spelled and a nested quote pair converted", {"doc": doc, "opts": {x: str(y) for x, y in o.items()}}, None,
+                         known="C02-smartquotes-overlapping-pairs")
             elif a != b:
                 import difflib
                 diff = [l for l in difflib.unified_diff(a.split("\n"), b.split("\n"), lineterm="", n=0)][2:8]
@@ -202,7 +225,7 @@ def run(ctx: Ctx) -> None:
     docs = [mdgen.gen_document(rng, quotes=(i % 2 == 0), ellipses=(i % 3 == 0), tags=(i % 5 == 0), html=(i % 4 == 0), bold_headings=True, frontmatter=True)
             for i in range(ctx.scale(350, 6000))]
     oracle(ctx, docs, "generated-clean", 3)
-    docs = [mdgen.gen_document(rng, quotes=True, ellipses=True, hazards=True, clean=False, bold_headings=True) for i in range(ctx.scale(60, 1500))]
+    docs = [mdgen.gen_document(rng, quotes=True, ellipses=True, hazards=True, clean=False, bold_headings=True) for i in range(ctx.scale(25, 1500))]
     oracle(ctx, docs, "generated-hazards", 2)
     plaintext_oracle(ctx, ctx.scale(800, 20000))
     ctx.rule("special documents × 6 sampled option sets; generated documents (clean and hazard streams) × sampled points of the option product "
